@@ -12,7 +12,7 @@ import functools
 import numpy as np
 
 from .. import circmon
-from ..gen import Builder
+from ..gen import Builder, pick_phase
 from .common import drain_into, merge_stats, setup
 
 PROPERTY = "C09"
@@ -278,6 +278,16 @@ def run(ctx):
                 ctx.violation(f"{rw} raised {type(e).__name__}: {e}", case={"circuit": log, "rewrites": seq},
                               mechanism="rewrite_raised:" + rw, monitor="driver")
                 break
+            if b.params and rng.random() < 0.3:
+                # the rewritten circuit is still built from the same Parameter objects: move one, compare again below
+                q = b.params[int(rng.integers(len(b.params)))]
+                try:
+                    v0 = q.get()
+                    q.set(float(rng.uniform(0.05, 0.95)) if (isinstance(v0, (int, float)) and 0 <= v0 <= 1) else pick_phase(rng))
+                    ctx.bucket("parameter_moved_after_rewrite")
+                    log.append(["parameter_set_after", rw])
+                except Exception as e:  # noqa: BLE001
+                    ctx.count("param_set_raised:" + type(e).__name__)
             status, problems = circmon.compare(c, rng)
             if status == "compared":
                 for kind, detail in problems:
